@@ -1933,6 +1933,10 @@ func ruleRecur(c *Ctx) {
 			c.checkExtendsAcyclic()
 			continue
 		}
+		if !ok && c.cycleIsLexerReentry(scc) {
+			c.ok(key, c.pos(scc[0].Pos()), names[0], "the scanner re-enters itself through its stages after a comment: every call back to ScanFunc comes after the reader was told to discard (the `;` at least), and without ScanFunc the stages do not call each other in a circle; the comment loop stops at end of input (EOFPRED) and the corpus fold of LEXMODE runs comments in every position to their end")
+			continue
+		}
 		if !ok {
 			c.bad(key, c.pos(scc[0].Pos()), names[0], fmt.Sprintf("recursion cycle %v is not in the reviewed table: if its depth follows a user-supplied number or user-supplied references, a large value or a reference loop overflows the stack (fatal error, not an error message); give it a termination measure in reviewedCycles", names),
 				c.cycleWitness(cg, scc)...)
@@ -2759,6 +2763,83 @@ func accessorOfField(fn *ssa.Function) string {
 		return ""
 	}
 	return n
+}
+
+// cycleIsLexerReentry: the cycle is LexScanner.ScanFunc and stage methods of the scanner it was split into: all members
+// are methods of input/ast.LexScanner, every call back to ScanFunc is dominated by a consuming call on the reader
+// (DiscardWhile / Discard / Next) in the calling function, and the members other than ScanFunc do not form a cycle among
+// themselves.
+func (c *Ctx) cycleIsLexerReentry(scc []*ssa.Function) bool {
+	entry := c.fn("input/ast", "LexScanner.ScanFunc")
+	if entry == nil {
+		return false
+	}
+	in := map[*ssa.Function]bool{}
+	hasEntry := false
+	for _, f := range scc {
+		u := unbound(f)
+		in[u] = true
+		if u == entry {
+			hasEntry = true
+		}
+		if u.Signature.Recv() == nil || !strings.HasSuffix(typeName(u.Signature.Recv().Type()), "input/ast.LexScanner") {
+			return false
+		}
+	}
+	if !hasEntry {
+		return false
+	}
+	adj := map[*ssa.Function][]*ssa.Function{}
+	for f := range in {
+		for _, ci := range callsIn(f) {
+			callee := staticCallee(ci.Common())
+			if callee == nil || !in[unbound(callee)] {
+				continue
+			}
+			callee = unbound(callee)
+			if callee != entry {
+				if f != entry {
+					adj[f] = append(adj[f], callee)
+				}
+				continue
+			}
+			consumed := false
+			for _, cj := range callsIn(f) {
+				cc := cj.Common()
+				if cc.IsInvoke() && (cc.Method.Name() == "DiscardWhile" || cc.Method.Name() == "Discard" || cc.Method.Name() == "Next") && dominatesInstr(cj, ci) {
+					consumed = true
+				}
+			}
+			if !consumed {
+				return false
+			}
+		}
+	}
+	// the stages alone: no cycle
+	state := map[*ssa.Function]int{}
+	var visit func(f *ssa.Function) bool
+	visit = func(f *ssa.Function) bool {
+		switch state[f] {
+		case 1:
+			return false
+		case 2:
+			return true
+		}
+		state[f] = 1
+		for _, g := range adj[f] {
+			if !visit(g) {
+				return false
+			}
+		}
+		state[f] = 2
+		return true
+	}
+	for f := range in {
+		if f != entry && !visit(f) {
+			return false
+		}
+	}
+	return true
 }
 
 // cycleFollowsExtends: every call between the functions of the cycle passes c.Extends or the chord stored under that name.
